@@ -437,6 +437,7 @@ type FuncContract struct {
 	AtCalls  []*Clause // assertions after the k-th call of a callee: Tag2 = "callee#k"
 	Assumes  []*Clause // loop-head assumptions (listed in evidence, not proved)
 	Steps    []*Clause // per-iteration relations, checked at every back edge; prev(e) is e at the head of the iteration
+	Exits    []*Clause // "exits-early-only-if P": every edge that leaves the loop from inside its body (break, return, goto) needs P
 	Extra    map[string][]string
 	File     string
 	Line     int
@@ -869,6 +870,8 @@ func (cs *ContractSet) ParseContractText(pkgPath, file, text string) error {
 					cur.Assumes = append(cur.Assumes, cl)
 				case "step":
 					cur.Steps = append(cur.Steps, cl)
+				case "exits-early-only-if":
+					cur.Exits = append(cur.Exits, cl)
 				default:
 					return errf(fmt.Errorf("bad loop clause kind %q", kind))
 				}
@@ -948,7 +951,7 @@ func (c *FuncContract) AllProps() []string {
 
 // clauseCounts / tagUntaggedSince implement block-local default properties (see the "end" case of the parser).
 func (c *FuncContract) clauseLists() []*[]*Clause {
-	return []*[]*Clause{&c.Requires, &c.Ensures, &c.Invs, &c.Decs, &c.Assumes, &c.Steps, &c.AtCalls}
+	return []*[]*Clause{&c.Requires, &c.Ensures, &c.Invs, &c.Decs, &c.Assumes, &c.Steps, &c.AtCalls, &c.Exits}
 }
 
 func (c *FuncContract) clauseCounts() []int {
